@@ -31,7 +31,9 @@ DECIDING = ["transitions_compared", "lr_linearity_pairs", "metamorphic_pairs", "
 MIN_NONTRIVIAL = 30
 MAX_SKIP_FRACTION = 0.35
 TIMEOUT = {"quick": 1500, "thorough": 7200}
-SHAPES = [(4, 3), (6,), (2, 3, 2), (5, 2), (8, 4), (4, 4), (6, 3), (2, 2, 3), (9,), (12, 2)]
+SHAPES = [(4, 3), (6,), (2, 3, 2), (5, 2), (8, 4), (4, 4), (6, 3), (2, 2, 3), (9,), (12, 2),
+          # first large axis exactly one block, second several blocks; padded second axis; three axes
+          (4, 8), (3, 6), (2, 6), (3, 9), (4, 7), (2, 4, 6), (3, 4, 7)]
 
 
 def shards(tier, seed):
